@@ -36,7 +36,7 @@ class Cell:
                  extra_checks=(), backends=(("sat", 120),), object_bits=None,
                  kind="proof", bound=None, note="", flavour="debug",
                  expect_fail=(), closes_loops="", replay=None, group=None,
-                 no_checks=(), nondet_static=False, malloc_may_fail=False, optional=False, fallback=None, trace_extra=(), split=0):
+                 no_checks=(), nondet_static=False, malloc_may_fail=False, optional=False, fallback=None, trace_extra=(), split=0, heavy=None):
         self.id = id
         self.unit = unit
         self.entry = entry
@@ -60,6 +60,7 @@ class Cell:
         self.group = group
         self.malloc_may_fail = malloc_may_fail
         self.optional = optional
+        self.heavy = optional if heavy is None else heavy   # solver runs of several GB: system-wide limited
         self.fallback = fallback
         self.trace_extra = tuple(trace_extra)
         self.split = split   # >0: decide the obligations in that many parallel cbmc processes (--property groups)
@@ -70,7 +71,57 @@ def _limits():
     resource.setrlimit(resource.RLIMIT_AS, (lim, lim))
 
 
-def run(cmd, timeout, cwd=None, stdout_path=None):
+# Global limits on concurrently running solver processes: every cbmc run takes one of SOLVER_SLOTS; the runs of
+# cells decided in split mode (the large ones: several GB each) also take one of HEAVY_SLOTS, so that the memory
+# cap per process (MEM_LIMIT_GB) times the number of large processes stays below the machine's memory.  A run waits
+# for its slot *before* its timeout starts.
+import threading
+SOLVER_SLOTS = threading.BoundedSemaphore(int(os.environ.get("VERIF_SOLVER_SLOTS", "16")))
+
+
+class FileSlots:
+    """System-wide counting semaphore (flock on N slot files, created on demand): the large solver runs of all
+    check processes running at the same time share it, so several checks started in parallel do not exhaust memory."""
+
+    def __init__(self, n, name):
+        self.n = n
+        self.dir = os.path.join(os.environ.get("VERIF_SLOT_DIR", "/var/tmp"), "covfie-verif-slots")
+        self.name = name
+        self.local = threading.local()
+
+    def __enter__(self):
+        import fcntl
+        os.makedirs(self.dir, exist_ok=True)
+        while True:
+            for i in range(self.n):
+                try:
+                    fd = os.open(os.path.join(self.dir, "%s.%d" % (self.name, i)), os.O_CREAT | os.O_RDWR, 0o666)
+                except OSError:
+                    continue
+                try:
+                    fcntl.flock(fd, fcntl.LOCK_EX | fcntl.LOCK_NB)
+                    self.local.fd = fd
+                    return self
+                except OSError:
+                    os.close(fd)
+            time.sleep(0.5)
+
+    def __exit__(self, *a):
+        os.close(self.local.fd)
+        return False
+
+
+HEAVY_SLOTS = FileSlots(int(os.environ.get("VERIF_HEAVY_SLOTS", "4")), "heavy")
+
+
+def run(cmd, timeout, cwd=None, stdout_path=None, slot=None):
+    if slot == "heavy":
+        with HEAVY_SLOTS:
+            with SOLVER_SLOTS:
+                return run(cmd, timeout, cwd, stdout_path)
+    if slot == "solver":
+        with SOLVER_SLOTS:
+            return run(cmd, timeout, cwd, stdout_path)
     t0 = time.time()
     try:
         if stdout_path:
@@ -109,7 +160,7 @@ def parse_cbmc_json(path):
 TIMINGS = []
 
 
-def run_split(cmd, tmo, workdir, be, ngroups):
+def run_split(cmd, tmo, workdir, be, ngroups, slot="solver"):
     """Lists the obligations (--show-properties) and decides them in parallel cbmc processes, each restricted
     to a group by --property.  Returns (rc, results, msgs, seconds); rc None = some group timed out."""
     import concurrent.futures as cf
@@ -140,7 +191,7 @@ def run_split(cmd, tmo, workdir, be, ngroups):
         c = list(cmd)
         for n in g:
             c += ["--property", n]
-        rc, out, err, dt = run(c, tmo, stdout_path=outp)
+        rc, out, err, dt = run(c, tmo, stdout_path=outp, slot=slot)
         TIMINGS.append((round(dt, 1), g[0], len(g)))
         if rc is None:
             return None, g, ["timeout on " + ",".join(g[:3])]
@@ -235,7 +286,7 @@ def run_cell(cell, unit_c_path, workdir, log):
         cmd = base + BACKENDS[be]
         outp = os.path.join(workdir, "cbmc.%s.json" % be)
         if cell.split:
-            rc, results, msgs, dt = run_split(cmd, tmo, workdir, be, cell.split)
+            rc, results, msgs, dt = run_split(cmd, tmo, workdir, be, cell.split, "heavy" if cell.heavy else "solver")
             att = {"backend": be, "timeout_s": tmo, "seconds": round(dt, 2), "rc": rc, "split": cell.split}
             res["cmds"].append(" ".join(cmd) + "   [obligations decided in %d parallel --property groups]" % cell.split)
             if rc is None:
@@ -244,7 +295,7 @@ def run_cell(cell, unit_c_path, workdir, log):
                 continue
             joined = "\n".join(msgs)
         else:
-            rc, out, err, dt = run(cmd, tmo, stdout_path=outp)
+            rc, out, err, dt = run(cmd, tmo, stdout_path=outp, slot="heavy" if cell.heavy else "solver")
             att = {"backend": be, "timeout_s": tmo, "seconds": round(dt, 2), "rc": rc}
             res["cmds"].append(" ".join(cmd))
             if rc is None:
